@@ -74,6 +74,11 @@ def _histories(tier):
     hs.append(dict(steps=[2, 4, 6, 8, 10, 11], keep=keep, n=n, overwrite=False))
   hs.append(dict(steps=[1, 2, 3, 2, 5], keep=2, n=None, overwrite=True))
   hs.append(dict(steps=[1, 2, 3, 4, 2], keep=3, n=2, overwrite=True))
+  # roll-backs: an overwrite save at a step older than everything / most of what is retained
+  hs.append(dict(steps=[1, 2, 3, 4, 5, 2], keep=3, n=None, overwrite=True))
+  hs.append(dict(steps=[1, 2, 3, 4, 5, 6, 3, 4], keep=2, n=None, overwrite=True))
+  hs.append(dict(steps=[2, 4, 6, 8, 10, 5, 6], keep=2, n=4, overwrite=True))
+  hs.append(dict(steps=[1, 2, 3, 4, 5, 6, 7, 1], keep=1, n=3, overwrite=True))
   hs.append(dict(steps=[0.5, 1.5, 10.0, 9e1], keep=2, n=None, overwrite=False))
   hs.append(dict(steps=[-2, -1, 0, 1], keep=2, n=None, overwrite=False))
   # prefixes that contain digits, '-' and '.' themselves: the step is the number AFTER the prefix
